@@ -135,6 +135,34 @@ fn main() {
 fn dup() {}
 fn dup() {}
 `}},
+	{Name: "objects-with-several-unexpected-fields", Mods: map[string]string{"main": `type P = { x: int, y: int };
+fn takes(p: P) { }
+fn a() { let v: P = new { x: 1, y: 2, zeta: 3, alpha: 4 }; }
+fn b() { takes(new { x: 1, y: 2, m: 1, k: 2, b: 3 }); }
+fn c() -> P { new { y: 2, x: 1, ww: 1, aa: 2, mm: 3, bb: 4 } }
+fn d() { let v: { p: P, q: P } = new { p: new { x: 1, y: 2, u: 1, t: 2 }, q: new { x: 1, y: 2, u: 1, t: 2 } }; }
+fn main() { }
+`}},
+	{Name: "objects-with-several-missing-or-mistyped-fields", Mods: map[string]string{"main": `type Q = { x: int, y: int, z: int, w: int };
+fn takes(q: Q) { }
+fn a() { let v: Q = new { x: 1 }; }
+fn b() { takes(new { w: 1 }); }
+fn c() { let v: Q = new { x: "s", y: true, z: 1.5, w: [1] }; }
+fn d() { let v: Q = new { x: "s", y: true, extra1: 1, extra2: 2 }; }
+fn main() { }
+`}},
+	{Name: "calls-with-several-wrong-arguments", Mods: map[string]string{"main": `fn f(a: int, b: str, c: bool, d: [int]) { }
+fn main() {
+    f("s", 1, 2, 3);
+    f(1);
+    f(1, "s", true, [1], 5, 6);
+    let g = fn(k: int, l: str) -> int { k };
+    g("s", 1);
+    let o = new { m1: 1, m2: 2 };
+    println(o.n1, o.n2);
+    match 1 { "a" => 1, true => 2, _ => 3 };
+}
+`}},
 	{Name: "singletons-two", Tree: true, Mods: map[string]string{"main": `$A = { n: int, s: str };
 $B = { m: int };
 fn f(a: $A, b: $B) -> int { a.n = 3; b.m = 4; a.n * 10 + b.m }
